@@ -87,7 +87,7 @@ def run(ctx):
             d = gen.make(rnd, 'concat', 900000, 1)
         plains.append(d)
     plains += [b'', b'x', gen.uniform(rnd, 100000), gen.uniform(rnd, 100001)]
-    ncomp = 220 if q else 9000
+    ncomp = 220 if q else 3000
     for i in range(ncomp):
         d = rnd.choice(plains)
         w = rnd.choice([1, 1, 2, 2, 3, 3, 4, 8])
@@ -98,7 +98,7 @@ def run(ctx):
                        expect_rc=0, expect_out=None,
                        drain=rnd.choice([None, None, (4096, 0.0005), (65536, 0.002)]),
                        feed=rnd.choice([None, None, ([99999, 1, 100001], 0.0005)])))
-    for i in range(24 if q else 500):
+    for i in range(24 if q else 250):
         d = rnd.choice(plains[:6])
         w = rnd.choice([1, 2, 3, 4])
         ultra = rnd.random() < 0.3
@@ -106,6 +106,15 @@ def run(ctx):
                        env={'LBZIP2_VERIF_SCHED': '%d:holdblock:%d' % (rnd.randrange(1, 1 << 30), rnd.choice([100, 250]))},
                        argv=(lambda lb, w=w, ultra=ultra: [lb, '-1', '-n', str(w)] + (['-u'] if ultra else [])),
                        expect_rc=0, expect_out=None, drain=rnd.choice([None, (4096, 0.0005)])))
+    for i in range(24 if q else 250):
+        w = rnd.choice([3, 3, 4, 5, 6])
+        tail = rnd.randint(2 * w + 1, 3 * w + 1)
+        nblk = tail + rnd.randint(1, 4)
+        d = b''.join((rnd.randbytes(100000) if k == nblk - tail - 1 else bytes(100000)) for k in range(nblk))
+        cs.append(dict(kind='compress', name='late-heavy-block', stdin=d, w=w,
+                       env={'LBZIP2_VERIF_SCHED': '%d:holdblock:%d' % (rnd.randrange(1, 1 << 30), rnd.choice([150, 400])),
+                            'LBZIP2_VERIF_HOLDKEY': str(nblk - tail - 1)},
+                       argv=(lambda lb, w=w: [lb, '-1', '-n', str(w)]), expect_rc=0, expect_out=None))
     # decompression workloads
     comps = []
     for d in plains[:8]:
@@ -139,7 +148,7 @@ def run(ctx):
         bomb = f.read()
     v, info, bombout = ora.refbz(bomb)
     comps.append((bomb * 2, bombout * 2))
-    ndec = 260 if q else 12000
+    ndec = 260 if q else 4000
     for i in range(ndec):
         data, plain = rnd.choice(comps)
         w = rnd.choice([1, 1, 2, 2, 3, 3, 4, 8])
@@ -153,7 +162,7 @@ def run(ctx):
         cs.append(dict(kind='decompress', name='comp%d' % comps.index((data, plain)), stdin=data, w=w, env=env,
                        argv=(lambda lb, w=w: [lb, '-d', '-n', str(w)]), expect_rc=0, expect_out=plain,
                        drain=rnd.choice([None, None, (65536, 0.001), (8192, 0.0002)])))
-    for i in range(24 if q else 400):
+    for i in range(24 if q else 200):
         w = rnd.choice([2, 3, 4])
         big = rnd.random() < 0.4
         data, plain = folbig if big else fol
@@ -170,7 +179,7 @@ def run(ctx):
         cs.append(dict(kind='decompress', name='flood-f3', stdin=f3, w=w,
                        env={'LBZIP2_VERIF_SCHED': '%d:jitter' % rnd.randrange(1, 1 << 30), 'LBZIP2_VERIF_IN_GRANUL': '64'},
                        argv=(lambda lb, w=w: [lb, '-d', '-n', str(w)]), expect_rc=0, expect_out=f3out))
-    for i in range(30 if q else 600):
+    for i in range(30 if q else 300):
         data, plain = comps[many_tiny_idx - (i % 2 if not q else 0)] if not q else comps[many_tiny_idx - i % 2]
         w = rnd.choice([2, 2, 3, 4])
         if rnd.random() < 0.7:
